@@ -208,8 +208,79 @@ func (s *Session) targets(prop string, only string) ([]target, []string) {
 			out = append(out, target{w, ss, fn, fs, key})
 		}
 	}
+	if prop != "" && only == "" {
+		out = s.closeTargets(out)
+	}
 	sort.Slice(out, func(i, j int) bool { return out[i].key < out[j].key })
 	return out, missing
+}
+
+// closeTargets adds, to the functions labelled with a property, every function
+// under contract that they call (directly or through closures, go and defer
+// statements), transitively, and the `prove` blocks they use: the proof of a
+// caller relies on the callee's contract, which is only established by
+// verifying the callee's body, so a change inside a callee must be seen by the
+// check of every property whose functions call it.
+func (s *Session) closeTargets(seed []target) []target {
+	all, _ := s.targets("", "")
+	byKey := map[string]target{}
+	for _, t := range all {
+		byKey[t.key] = t
+	}
+	in := map[string]bool{}
+	work := append([]target(nil), seed...)
+	for _, t := range seed {
+		in[t.key] = true
+	}
+	out := append([]target(nil), seed...)
+	add := func(key string) {
+		if t, ok := byKey[key]; ok && !in[key] {
+			in[key] = true
+			out = append(out, t)
+			work = append(work, t)
+		}
+	}
+	for len(work) > 0 {
+		t := work[len(work)-1]
+		work = work[:len(work)-1]
+		for _, u := range t.spec.Uses {
+			add(t.spec.Pkg + ".prove " + u)
+		}
+		if t.fn == nil {
+			continue
+		}
+		var walk func(fn *ssa.Function, depth int)
+		walk = func(fn *ssa.Function, depth int) {
+			for _, b := range fn.Blocks {
+				for _, ins := range b.Instrs {
+					var callee *ssa.Function
+					switch x := ins.(type) {
+					case *ssa.Call:
+						callee = x.Call.StaticCallee()
+					case *ssa.Go:
+						callee = x.Call.StaticCallee()
+					case *ssa.Defer:
+						callee = x.Call.StaticCallee()
+					case *ssa.MakeClosure:
+						callee, _ = x.Fn.(*ssa.Function)
+					}
+					if callee == nil {
+						continue
+					}
+					k := funcKey(callee)
+					if _, ok := byKey[k]; ok {
+						add(k)
+					} else if depth < 4 && callee.Blocks != nil && strings.Contains(k, "licenseclassifier") {
+						// a function of the repository without a contract of its own
+						// (inlined or default contract): look through it
+						walk(callee, depth+1)
+					}
+				}
+			}
+		}
+		walk(t.fn, 0)
+	}
+	return out
 }
 
 func main() {
